@@ -18,12 +18,17 @@ pub trait Elem: linfa::Float {
     const EPS: f64;
     /// absolute floor of every tolerance (64 × smallest positive normal number)
     const TINY: f64;
+    /// smallest positive normal number / largest finite number of the element type
+    const MIN_POS: f64;
+    const MAX: f64;
     fn w(self) -> f64;
     fn n(x: f64) -> Self;
 }
 impl Elem for f64 {
     const EPS: f64 = f64::EPSILON;
     const TINY: f64 = 64.0 * f64::MIN_POSITIVE;
+    const MIN_POS: f64 = f64::MIN_POSITIVE;
+    const MAX: f64 = f64::MAX;
     fn w(self) -> f64 {
         self
     }
@@ -34,6 +39,8 @@ impl Elem for f64 {
 impl Elem for f32 {
     const EPS: f64 = f32::EPSILON as f64;
     const TINY: f64 = 64.0 * f32::MIN_POSITIVE as f64;
+    const MIN_POS: f64 = f32::MIN_POSITIVE as f64;
+    const MAX: f64 = f32::MAX as f64;
     fn w(self) -> f64 {
         self as f64
     }
